@@ -115,7 +115,7 @@ struct MsgSpec
 };
 
 // a packet assembled through the public API (setPayload + setters), e.g. for direct Status::update calls
-PacketRef makePacket(const MsgSpec& m, uint16_t dev, uint8_t stream);
+PacketRef makePacket(const MsgSpec& m, uint16_t dev, uint8_t stream, uint16_t seq = 0);
 
 class Enc
 {
